@@ -1298,10 +1298,12 @@ var Engine = &core.Engine{
 	Level: "exploration",
 	Rule: "one generated model type per case (reflect.StructOf over 62 field kinds: all int/uint widths, floats, bool, string, []byte, time.Time, pointers to each, sql.Null*, " +
 		"custom Scanner/Valuer types string-/struct-/slice-/map-based with value and pointer receivers, serializer json/gob/unixtime, types that are their own serializer with merging Scan (struct with omitempty members, map, slice, string; records get different member sets; serialized structs / maps / slices differ between records in which members are zero, which keys a map has and how long a slice is); tags column (plain, mixed case, an SQL keyword, and - in a quarter of the generated models - " +
-		"the exact Go name of ANOTHER field of the model whose own column is a different one, also crossed: A `column:B`, B `column:A`; the other field may be a key or a leaf of an embedded struct), literal and " +
+		"the exact Go name of ANOTHER field of the model whose own column is a different one, also crossed: A `column:B`, B `column:A`; the other field may be a key or a leaf of an embedded struct; names with a DOUBLE UNDERSCORE - gorm's own separator for the columns of joined relations - as legacy separator, leading, trailing, twice, spelled <GoName>__<column>; names that need quoting: dash, blank, #, leading digit), literal and " +
 		"database-function defaults, default:null, autoCreateTime/autoUpdateTime (time, s, ms, ns; by tag and by name), not null, <- permissions; value- and pointer-embedded structs with " +
-		"embeddedPrefix, nested; keys: auto-increment (8 integer kinds, explicit/implicit/renamed), non-auto int, string, composite of 2 and 3) or, every 8th case, one of 3 static models " +
-		"(anonymous value/pointer embedding, gorm.Model, TableName, anonymous embeddedPrefix); each model x {RETURNING, LastInsertId reversed, LastInsertId first-id} on a fresh database x " +
+		"embeddedPrefix (also with a double underscore, also none), nested; embedded by tag or ANONYMOUSLY (Go embedding via reflect.StructOf: no tag, embeddedPrefix tag only, both tags; also inside an embedded struct); " +
+		"in about a quarter of the generated models one more top-level field SHADOWS a field inside an embedded struct - it carries the same Go name (Go's own shadowing of a promoted field) or a column: tag that spells the inner field's column - " +
+		"and is declared directly before or directly after the embedded struct (anonymous / tagged, value / pointer, nested): the outer field is an ordinary field of the model, the inner one is left zero and must stay zero; keys: auto-increment (8 integer kinds, explicit/implicit/renamed), non-auto int, string, composite of 2 and 3) or, every 8th case, one of 3 static models " +
+		"(anonymous value/pointer embedding, gorm.Model, TableName, anonymous embeddedPrefix) and 2 static models whose named embedded structs have promoted fields shadowed by outer fields declared after and before them (auto time, default, pointer, and the primary key itself: uint key of the embedded struct shadowed by a string key); each model x {RETURNING, LastInsertId reversed, LastInsertId first-id} on a fresh database x " +
 		"13 Create calls (single first, then in random order single, &[]T, &[]*T, []*T, CreateInBatches over values/pointers with batch 1..n+1, map, &map, &[]map, one more slice shape, and last []map by value and CreateInBatches over []map / &[]map; " +
 		"auto keys zero / explicit / mixed within one slice) with boundary values; every record is read back by key with First / Take / Find into a fresh struct and with Model-bound Take / First / Find and Table-bound Take into a fresh map; " +
 		"then consecutive First/Take of the records compared only after the round (3 rounds for self-serializing models); then DESTINATIONS USED MORE THAN ONCE: one map variable (nil or empty at first, by pointer or by value) as destination of up to 8 consecutive Take/First " +
@@ -1325,7 +1327,9 @@ var Engine = &core.Engine{
 		"RowsAffected is not part of the statement and is not checked",
 		"a map destination may be used any number of times: after a read every column key of the map holds the value of the row just read (NULL = nil); keys of the map that are not columns are not looked at. Rows() + ScanRows is taken as one of the query read paths of the title ('what queries load back'); its violations carry their own signatures (scanrows-map/, scanrows-struct/)",
 		"a struct destination is fresh, already holds the very record that is read again, or still holds ANOTHER record with its key fields reset to their zero value (gorm uses a non-zero key in the destination as a query condition: that is not generated). In the last case only the fields whose column holds a value in the row read are compared: gorm leaves a field as it is when its column is NULL, and the statement does not say what such a field of a used destination must hold (ScanRows, which zeroes the struct itself, is compared on every field)",
-		"a name that is the column of one field and the Go name of another one is handed to gorm only as a column name (result columns; map keys of Create): the Go-name spelling of a map key is generated only for fields whose Go name is not a column of the model",
+		"a name that is the column of one field and the Go name of another one is handed to gorm only as a column name (result columns; map keys of Create): the Go-name spelling of a map key is generated only for fields whose Go name is not a column of the model and is carried by no other field of the model at any depth (which of several fields called Num a map key \"Num\" means is not fixed by the statement)",
+		"two fields may share a column only when exactly one of them is on the shortest path (the outer field of Go's shadowing rule); the others are left zero in every record handed to Create, so that 'read back with equal field values' can only be met by storing and loading the field on the shortest path, and they are expected to be zero afterwards. Two fields on paths of the same length sharing a column are not generated (which one owns the column is not fixed by the statement)",
+		"column names contain letters, digits, underscores (also doubled), dash, blank and #; names with a dot, a quote character or a question mark are not generated",
 		"Find into a []map that already holds maps is not generated (gorm appends to it; the statement does not say whether a result replaces or extends the destination); Find into a reused []T / []*T must return exactly the table's records",
 		"a pointer field whose type is its own serializer (*SelfJS) never sits below a pointer-embedded struct and is non-nil in every ordinary record; the nil pointer is exercised once per database by a closing single Create (it panics inside gorm as long as the Value method is called through the nil pointer)",
 		"the first Create of every database is a single record with every embedded pointer set, and Create([]map) by value and CreateInBatches over maps run last: where gorm panics the handle is abandoned, and inside CreateInBatches a panic would dead-lock database/sql's Rollback",
